@@ -364,9 +364,13 @@ pub fn run(ctx: &RunCtx) -> i32 {
                             .iter()
                             .map(|e| match e {
                                 OEv::Out { who, bytes } => format!("Out({:?},{:04x?})", who, crate::refs::codec::ref_parse(bytes).map(|p| p.tlvs.iter().map(|t| (t.ty, t.value.len())).collect::<Vec<_>>()).unwrap_or_default()),
+                                // (which of several requests with the same deadline is named may depend on the random ids)
+                                OEv::Rto { ns, .. } => format!("Rto {{ ns: {} }}", ns),
                                 o => format!("{:?}", o),
                             })
                             .collect();
+                        let mut evs = evs;
+                        evs.sort();
                         out.push(format!("{:?} {:?} | {}", o.res, evs, run.w.canon()));
                     }
                     super::world::BUILD_ORDER.with(|c| c.set(0));
